@@ -3,6 +3,7 @@ import Gzx.Driver.C01Multi
 import Gzx.Driver.C02
 import Gzx.Driver.C03
 import Gzx.Driver.C03Row39
+import Gzx.Driver.C03Image
 import Gzx.Driver.C04
 import Gzx.Driver.C05
 import Gzx.Driver.C06
@@ -39,6 +40,7 @@ def dispatch (line : String) : String :=
   | "c02" :: rest => C02.handle rest
   | "c03" :: rest => C03.handle rest
   | "row39" :: rest => C03Row39.handle rest
+  | "img1d" :: rest => C03Image.handle rest
   | "c04" :: rest => C04.handle rest
   | "c05" :: rest => C05.handle rest
   | "c06" :: rest => C06.handle rest
